@@ -258,6 +258,8 @@ impl Prop for C12 {
         out.set_exhaustive("step", false);
       }
       "rt" => {
+        // strided walks on fresh threads (see engine::stride_walks)
+        stride_walks(env, out, "rt", env.tier.pick(1600, 48000) / nshards as u32, 7000 + shard as u64, 0, TOTAL_SECS, 4_000_000, &|x| vec![x], &ev);
         let (lo, hi) = shard_range(b.len(), shard, nshards);
         for &a in &b[lo..hi] {
           run_case(env, out, "rt", &Case::ints(&[a]), &ev);
@@ -275,13 +277,13 @@ impl Prop for C12 {
           secs.push(86398);
           for s in secs {
             for f in FRACS {
-              let cs = Case { a: vec![i as i64 * 86400 + s], f: vec![f], s: vec![] };
+              let cs = Case { a: vec![i as i64 * 86400 + s], f: vec![f], s: vec![], pre: vec![] };
               run_case(env, out, "jd", &cs, &ev);
             }
           }
         }
         let total: u32 = env.tier.pick(80_000, 1_600_000);
-        let strat = (0..TOTAL_SECS, prop_oneof![3 => 0.0f64..1.0, 1 => 0.49f64..0.51, 1 => 0.5f64..1.0]).prop_map(|(a, f)| Case { a: vec![a], f: vec![f], s: vec![] });
+        let strat = (0..TOTAL_SECS, prop_oneof![3 => 0.0f64..1.0, 1 => 0.49f64..0.51, 1 => 0.5f64..1.0]).prop_map(|(a, f)| Case { a: vec![a], f: vec![f], s: vec![], pre: vec![] });
         prop_run(env, out, "jd", total / nshards as u32, shard as u64, strat, &ev);
         out.set_exhaustive("jd", false);
       }
